@@ -5,14 +5,29 @@
 (* lock-step on the events the specification emits; `hist` is the scenario *)
 (* (resolved inputs) that reproduces the behaviour in the real code.       *)
 (***************************************************************************)
-EXTENDS OutstationEv, Json
+EXTENDS OutstationEv, Json, DevSets
 
-CONSTANTS MaxUpd, MaxSteps, Classes
+CONSTANTS MaxUpd, MaxSteps, Classes,
+          MonName     \* which monitor runs in lock-step: "C03" | "C13" | "C05" | "C14" | "none"
 
 VARIABLES s, ev, m, hist
 vars == <<s, ev, m, hist>>
 
 Mon03 == INSTANCE Mon_C03
+Mon13 == INSTANCE Mon_C13
+Mon05 == INSTANCE Mon_C05
+Mon14 == INSTANCE Mon_C14
+
+MInit == CASE MonName = "C03" -> Mon03!MonInit [] MonName = "C13" -> Mon13!MonInit
+           [] MonName = "C05" -> Mon05!MonInit [] MonName = "C14" -> Mon14!MonInit
+           [] OTHER -> [viol |-> <<>>]
+MStep(mm, e, l) ==
+    CASE MonName = "C03" -> Mon03!MonStep(mm, e, l) [] MonName = "C13" -> Mon13!MonStep(mm, e, l)
+      [] MonName = "C05" -> Mon05!MonStep(mm, e, l) [] MonName = "C14" -> Mon14!MonStep(mm, e, l)
+      [] OTHER -> mm
+MViol(mm) == IF MonName \in {"C05", "C14"} THEN mm.L.viol ELSE mm.viol
+\* only the violations of the property under check count
+PViol(mm) == SelectSeq(MViol(mm), LAMBDA v : v.prop = MonName)
 
 \* ---- the inputs offered to the outstation in each state
 H(n) == [n |-> n, lim |-> -1]
@@ -41,7 +56,7 @@ Inputs(st) ==
 
 Init == /\ s = Init0
         /\ ev = ResetEv
-        /\ m = Mon03!MonStep(Mon03!MonInit, ResetEv, 0)
+        /\ m = MStep(MInit, ResetEv, 0)
         /\ hist = <<>>
 
 Next == /\ Len(hist) < MaxSteps
@@ -50,13 +65,13 @@ Next == /\ Len(hist) < MaxSteps
                   e  == BuildEv(s, in, s1)
               IN /\ s' = s1
                  /\ ev' = e
-                 /\ m' = Mon03!MonStep(m, e, Len(hist) + 1)
+                 /\ m' = MStep(m, e, Len(hist) + 1)
                  /\ hist' = Append(hist, in)
 
 Spec == Init /\ [][Next]_vars
 
 \* ---- properties
-NoViolation == m.viol = <<>>
+NoViolation == PViol(m) = <<>>
 NoPanic == s.pc # "Dead"
 \* code-shaped counters never go stale
 CountersExact ==
@@ -65,7 +80,8 @@ CountersExact ==
         /\ s.written[c] = Len(SelectSeq(s.events, LAMBDA r : PCls(r.p) = c /\ r.st = "W"))
 
 \* the monitor ledger and the specification agree on which events exist
-LedgerAgrees == {m.live[i].id : i \in 1..Len(m.live)} = {s.events[i].id : i \in 1..Len(s.events)}
+LedgerAgrees == MonName # "C03" \/
+                {m.live[i].id : i \in 1..Len(m.live)} = {s.events[i].id : i \in 1..Len(s.events)}
 
 View == <<s, m>>
 
@@ -76,17 +92,16 @@ BiPt(ix, cls)    == [ty |-> "bi", ix |-> ix, cls |-> cls, esz |-> 9, ssz |-> 1, 
                      ev |-> 2, sg |-> 1, sv |-> 2]
 Pts_os2_cap1 == <<OsPt(0, 1, 130), OsPt(1, 2, 130)>>
 Pts_os2_cap2 == <<OsPt(0, 1, 100), OsPt(1, 2, 100)>>
-Pts_mixed    == <<OsPt(0, 1, 130), BiPt(0, 2)>>
+Pts_mixed    == <<BiPt(0, 2), OsPt(0, 1, 130)>>   \* class 0 reports in type order
 EvMax_os2    == <<0, 0, 0, 0, 0, 0, 0, 2>>
 EvMax_os1    == <<0, 0, 0, 0, 0, 0, 0, 1>>
 EvMax_mixed  == <<2, 0, 0, 0, 0, 0, 0, 2>>
-DEV_none     == {}
 DEV_DisconnectKeepsWritten == {"DisconnectKeepsWritten"}
 DEV_EchoUsesFirstHeader == {"EchoUsesFirstHeader"}
 DEV_OverflowKeepsWrittenCount == {"OverflowKeepsWrittenCount"}
 DEV_UnsolAbortKeepsWritten == {"UnsolAbortKeepsWritten"}
 DEV_asbuilt  == {"UnsolAbortKeepsWritten", "OverflowKeepsWrittenCount", "EchoUsesFirstHeader",
-                 "DisconnectKeepsWritten"}
+                 "DisconnectKeepsWritten", "IdleRepeatRefreshesIin"}
 CZ_os        == {"os", "bi"}
 Cl123        == {1, 2, 3}
 
